@@ -48,6 +48,10 @@ func recByEntropy(ent []byte, lang int64, extra Event) (out string, err error) {
 	}
 	emit(merge(o.into(e), extra))
 	keepString(out)
+	if ent != nil && len(ent) <= 64 {
+		cp := append([]byte(nil), before[:len(ent)]...)
+		scheduleEcho(func() { recByEntropy(cp, lang, Event{"fam": "echo"}) })
+	}
 	return
 }
 
@@ -63,6 +67,14 @@ func recCheck(in string, lang int64, extra Event) (err error) {
 	e := Event{"op": "Check", "in": units(string(before)), "lang": langField(lang), "err": errRec(err), "valid": valid, "in_same": in == string(before)}
 	emit(merge(o.into(e), extra))
 	keepErr(err)
+	if len(before) < 2000 {
+		cp := string(before)
+		ex := Event{"cls": "echo"}
+		if g, ok := extra["gen"]; ok {
+			ex["gen"] = g
+		}
+		scheduleEcho(func() { recCheck(cp, lang, ex) })
+	}
 	return
 }
 
